@@ -623,7 +623,7 @@ func (hc *connectUnaryHandlerConn) writeResponseHeader(err error) {
 	header := hc.responseWriter.Header()
 	if err != nil {
 		if connectErr, ok := asError(err); ok {
-			mergeHeaders(header, connectErr.meta)
+			mergeMetadataHeaders(header, connectErr.meta)
 		}
 	}
 	for k, v := range hc.responseTrailer {
@@ -702,7 +702,7 @@ func (m *connectStreamingMarshaler) MarshalEndStream(err error, trailer http.Hea
 	end := &connectEndStreamMessage{Trailer: trailer}
 	if err != nil {
 		if connectErr, ok := asError(err); ok {
-			mergeHeaders(end.Trailer, connectErr.meta)
+			mergeMetadataHeaders(end.Trailer, connectErr.meta)
 			end.Error = (*connectWireError)(connectErr)
 		} else {
 			end.Error = (*connectWireError)(NewError(CodeUnknown, err))
